@@ -571,15 +571,38 @@ def run_C19(ctx):
     run_heap(ctx)
 
 
+def compat(ctx):
+    """Operand compatibility of union / merge (Gen_Compat): operands built with BuildHasherSeeded whose seeds differ in the
+    low half, the high half or both, or whose configuration differs in one parameter; judged by P_Compat."""
+    w = ctx.sub("compat")
+    c = {"EMIT": "FALSE"}
+    ctx.e1.append(vlib.model_check("Gen_Compat", c, ["Inv"], ctx.sub("e1"), workers=1))
+    c["EMIT"] = "TRUE"
+    gen, st = vlib.generate("Gen_Compat", c, w, "cases.out")
+    p = os.path.join(w, "p.ndjson")
+    stats = vlib.vh(["compat", "all", "--gen", gen, "--out", p], w)
+    n, rej = vlib.adjudicate("P_Compat", p, w, parallel=1)
+    ctx.judged += n
+    ctx.executed += stats["cases"]
+    ctx.e2_transitions += stats["cases"]
+    add_rejects(ctx, [(t, cl) for t, cl in rej if not cl.startswith("X.")], p, "compat", "P_Compat")
+    extra = sorted(set(cl for _, cl in rej if cl.startswith("X.")))
+    ctx.extra["operand_compatibility"] = {"cases": stats["cases"], "rejected": len(rej), "extra_mismatches": extra}
+    for cl in extra:
+        log("EXTRA (operand compatibility, not a verdict): %s" % cl)
+
+
 def run_C06(ctx):
     """merge/union equals processing both streams: Bloom, cuckoo, quotient filter (incl. algebra), CMS, HLL."""
     ctx.lite = True
+    compat(ctx)
     run_C06_filters(ctx)
     run_cms(ctx)
     run_hll(ctx)
 
 
 def run_C01(ctx):
+    compat(ctx)
     run_bl(ctx)
     run_ck(ctx)
     run_C13(ctx)
